@@ -7,6 +7,6 @@
 (* hidden from the state fingerprint by VIEW.                              *)
 (***************************************************************************)
 EXTENDS ProtoSpec, Json
-HView == core
+HView == <<core, Len(hist)>>
 Emit == PrintT(<<"EDGE", ToJson([h |-> hist', p |-> Proj'])>>)
 =============================================================================
